@@ -201,6 +201,44 @@ func (c *Ctx) c17First() {
 			if !complete {
 				probs = append(probs, "path bound exceeded")
 			}
+			// (1) again, over the loop: the path enumeration takes every edge once and so never
+			// reaches the call a second time; search for a way from the call back to itself
+			// that does not pass an edge on which its result is nil
+			isResult := func(v ssa.Value) bool {
+				if v == ssa.Value(call) {
+					return true
+				}
+				for _, a := range eng.ValueAliases(call) {
+					if a == v {
+						return true
+					}
+				}
+				if ph, ok := v.(*ssa.Phi); ok {
+					for _, e := range ph.Edges {
+						if e == ssa.Value(call) {
+							return true
+						}
+					}
+				}
+				return false
+			}
+			notNilEdge := func(b *ssa.BasicBlock, k int) bool {
+				if len(b.Succs) != 2 {
+					return true
+				}
+				rel, ok := eng.EdgeRel(b, k)
+				if !ok || rel.Op != token.EQL {
+					return true
+				}
+				x, y := rel.X, rel.Y
+				if eng.IsNilConst(x) {
+					x, y = y, x
+				}
+				return !(eng.IsNilConst(y) && isResult(x))
+			}
+			if (&eng.Search{Target: func(in ssa.Instruction) bool { return in == ssa.Instruction(call) }, Edge: notNilEdge}).After(call) != nil {
+				again = true
+			}
 			if again {
 				probs = append(probs, "after a non-nil result another listener can still be called: a later hook overrides the first answer")
 			}
